@@ -89,6 +89,12 @@ def mat_fun(m, f):
     return upper(a)
 
 
+def det_eig(m):
+    """determinant as the product of the eigenvalues (no cancellation for an SPD matrix)"""
+    w, _ = jacobi_eig(m)
+    return w[0] * w[1] * w[2]
+
+
 def inv_sqrt_full(m):
     w, v = jacobi_eig(m)
     return [[sum(v[i][k] * (1.0 / math.sqrt(w[k])) * v[j][k] for k in range(3)) for j in range(3)] for i in range(3)]
@@ -139,10 +145,10 @@ def ref_tet(sel, mv, xs, ms):
         ls = [mat_fun(m, math.log) for m in ms]
         mavg = mat_fun([sum(l[k] for l in ls) / 4.0 for k in range(6)], math.exp)
         l2 = sum(vtmv(mavg, sub(xs[j], xs[i])) for i in range(4) for j in range(i + 1, 4))
-        d = det_m(mavg)
+        d = det_eig(mavg)
     else:
         l2 = sum(edge_len(xs[i], xs[j], ms[i], ms[j]) ** 2 for i in range(4) for j in range(i + 1, 4))
-        d = min(det_m(m) for m in ms)
+        d = min(det_eig(m) for m in ms)
     if not (l2 > 0) or not (d > 0):
         return None
     return C36 * (math.sqrt(d) * vol) ** (2.0 / 3.0) / l2
@@ -158,17 +164,16 @@ def ref_tri(sel, xs, ms):
         ls = [mat_fun(m, math.log) for m in ms]
         mavg = mat_fun([sum(l[k] for l in ls) / 3.0 for k in range(6)], math.exp)
         e1, e2 = sub(xs[1], xs[0]), sub(xs[2], xs[0])
-        a = sym(mavg)
-
-        def ip(u, v):
-            return sum(u[i] * a[i][j] * v[j] for i in range(3) for j in range(3))
-        gram = ip(e1, e1) * ip(e2, e2) - ip(e1, e2) ** 2
-        l2 = ip(e1, e1) + ip(e2, e2) + vtmv(mavg, sub(xs[2], xs[1]))
-        if not (l2 > 0) or gram < 0:
+        # area in the metric: |S e1 x S e2| = det(S) |S^-1 (e1 x e2)| with S = M^(1/2)  (no Gram-determinant cancellation)
+        nrm = cross(e1, e2)
+        minv = mat_fun(mavg, lambda x: 1.0 / x)
+        a2 = det_eig(mavg) * vtmv(minv, nrm)
+        l2 = vtmv(mavg, e1) + vtmv(mavg, e2) + vtmv(mavg, sub(xs[2], xs[1]))
+        if not (l2 > 0) or a2 < 0:
             return None
-        return 4.0 * math.sqrt(3.0) * 0.5 * math.sqrt(gram) / l2
+        return 4.0 * math.sqrt(3.0) * 0.5 * math.sqrt(a2) / l2
     l2 = sum(edge_len(xs[i], xs[j], ms[i], ms[j]) ** 2 for i in range(3) for j in range(i + 1, 3))
-    d = min(det_m(m) for m in ms)
+    d = min(det_eig(m) for m in ms)
     if not (l2 > 0) or not (d > 0):
         return None
     return 4.0 / math.sqrt(3.0) * 3 * d ** (1.0 / 3.0) * area_f(xs) / l2
@@ -462,8 +467,13 @@ def conditioning(o):
     return 64.0 * EPS * (full / meas) * (1.0 + big / lmax)
 
 
+STATS = {}
+
+
 def oracle_quality(ops, impl):
     bad = []
+    st_ = {'ref': 0, 'fd': 0, 'perm': 0, 'lines': 0}
+    STATS['last'] = st_
     P = [parse_op(o) for o in ops]
     R = [parse_out(l) if i < len(impl) else None for i, l in enumerate(impl)]
     n = min(len(P), len(R))
@@ -501,6 +511,7 @@ def oracle_quality(ops, impl):
                 vol = vol_f(o['xs'])
                 if abs(vol - mv) > cond * abs(vol) + 4 * EPS * abs(mv):
                     ref = ref_tet(sel, mv, o['xs'], o['ms'])
+                    st_['ref'] += 1
                     if vol <= mv:
                         if not close(vq[0], ref, 1e-9, cond * abs(vol) + 1e-300):
                             bad.append((i, 'tet volume %r <= min_volume %r: quality %r, expected %r' % (vol, mv, vq[0], ref)))
@@ -508,7 +519,7 @@ def oracle_quality(ops, impl):
                             bad.append((i, 'inverted/flat tet has positive quality %r' % vq[0]))
                     elif ref is not None:
                         mc = max(cond_of(m) for m in o['ms'])
-                        tol = 1e-9 + cond + 1e-15 * mc
+                        tol = 1e-9 + cond + 1e-14 * mc / max(abs(vq[0]), 1e-300)
                         if not close(vq[0], ref, tol):
                             bad.append((i, '%s tet quality %r, independent reference %r (tol %.1e)' % (sel, vq[0], ref, tol)))
                         if vq[0] <= 0:
@@ -518,8 +529,9 @@ def oracle_quality(ops, impl):
             else:
                 ref = ref_tri(sel, o['xs'], o['ms'])
                 if ref is not None:
+                    st_['ref'] += 1
                     mc = max(cond_of(m) for m in o['ms'])
-                    tol = 1e-9 + cond + 1e-15 * mc
+                    tol = 1e-9 + cond + 1e-14 * mc / max(abs(vq[0]), 1e-300)
                     if not close(vq[0], ref, tol):
                         bad.append((i, '%s tri quality %r, independent reference %r (tol %.1e)' % (sel, vq[0], ref, tol)))
                     if sel == 'jac' and vq[0] > 1.0 + tol:
@@ -551,11 +563,19 @@ def oracle_quality(ops, impl):
                 if o['cell'] == 'tet' and not (vol_f(o['xs']) > o['extra']):
                     smooth = False
                 if smooth:
+                    st_['fd'] += 1
                     gmax = max(abs(x) for x in vd[1:])
                     for k in range(3):
                         est, hp = fd[k]
-                        # rounding of the difference quotient + truncation, both relative to q / h
-                        tol = 1e-5 * gmax + 64 * EPS * abs(q) / abs(hp) * (1.0 + cond / EPS * 1e-3) + 1e-5 * abs(est)
+                        # curvature seen by the probes: forward minus backward difference quotient = h f''; the
+                        # truncation error of the central difference (h^2 f'''/6) is bounded by curv^2 / |f'| when the
+                        # function varies on the scale f'/f''
+                        qp, qm = R[i + 1 + 2 * k][0][1][0], R[i + 2 + 2 * k][0][1][0]
+                        curv = abs((qp - q) - (q - qm)) / (abs(hp) / 2.0)
+                        trunc = curv * curv / max(abs(est), 1e-300) + 0.1 * curv
+                        # rounding of the difference quotient, relative to q / h
+                        tol = (1e-5 * gmax + 64 * EPS * abs(q) / abs(hp) * (1.0 + cond / EPS * 1e-3) + 1e-5 * abs(est) +
+                               trunc)
                         if abs(est - vd[1 + k]) > tol:
                             bad.append((i, '%s %s d quality/d x0[%d] = %r, central difference of the plain quality %r '
                                         '(h %.3e, tol %.1e)' % (sel, o['cell'], k, vd[1 + k], est, hp, tol)))
@@ -586,7 +606,7 @@ def oracle_quality(ops, impl):
                 bad.append((i, 'permutation changes the status: %s vs %s (line %d)' % (s1, s0, i0)))
             elif s0 == 'ok':
                 mc = max(cond_of(m) for m in o0['ms'])
-                tol = 1e-10 + cond + 1e-15 * mc
+                tol = 1e-10 + cond + 1e-14 * mc / max(abs(q0[0]), 1e-300)
                 if o0['cell'] == 'tet':
                     vol = vol_f(o0['xs'])
                     if abs(vol - o0['extra']) <= cond * abs(vol) + 4 * EPS * abs(o0['extra']):
@@ -594,6 +614,7 @@ def oracle_quality(ops, impl):
                     absol = cond * abs(vol) if vol <= o0['extra'] else 0.0
                 else:
                     absol = 0.0
+                st_['perm'] += 1
                 if not close(q0[0], q1[0], tol, absol):
                     bad.append((i, '%s %s quality changes under an even permutation: %r vs %r (line %d, tol %.1e)' %
                                 (o0['sel'], o0['cell'], q1[0], q0[0], i0, tol)))
